@@ -1,3 +1,4 @@
+import AlatorVerif.Lemmas.HttpIds
 import AlatorVerif.Lemmas.SrvThm
 /-!
 # C08 — backtests get unique ids and cannot disturb one another (both servers)
@@ -29,6 +30,18 @@ theorem creation (a : App E Q) (n : String) :
 theorem ids_unique (ops : List (Op O A D)) (a : App E Q) :
     (createdIds X a ops).Pairwise (· < ·) ∧ ∀ i ∈ createdIds X a ops, a.last < i :=
   createdIds_increasing X ops a
+
+section
+open PHt
+/-- **unique ids on the client's side of the wire**: the backtest ids a client *decodes* from the JSON `init`
+    responses along any request sequence (no `init` naming an empty dataset) are exactly the ids of the in-process
+    creations — strictly increasing and above the counter at the start, for either service -/
+theorem ids_unique_over_http {α : Type} (enc : Enc Q R α) (syms : String → List String) (rs : List (Req O A D))
+    (a : App E Q) (hp : NoPanic X a rs) :
+    (httpCreatedIds X enc syms a rs).Pairwise (· < ·) ∧ ∀ i ∈ httpCreatedIds X enc syms a rs, a.last < i := by
+  rw [httpCreatedIds_eq X enc syms rs a hp]
+  exact createdIds_increasing X (rs.map toOp) a
+end
 
 /-- **non-interference**: the responses obtained for backtest `i` over any interleaving equal those of
     the run that contains only the requests addressed to `i` -/
